@@ -134,11 +134,25 @@ func (fr *frame) compareBytes(a, b []value, eqOnly bool) int {
 			continue
 		}
 		if bx, ok := x.(Blob); ok {
-			if by, ok := y.(Blob); ok && bx.V == nil && by.V == nil {
-				p++
-				continue
+			by, ok := y.(Blob)
+			if !ok || !eqOnly {
+				unsupported("ordering comparison on a marshalled message")
 			}
-			unsupported("byte comparison on a marshalled message")
+			if !types.Identical(bx.T, by.T) {
+				return 1
+			}
+			if bx.V == nil || by.V == nil {
+				if bx.V == nil && by.V == nil {
+					p++
+					continue
+				}
+				return 1
+			}
+			if !fr.i.eng.Branch(fr.deepEqTerm(bx.T, bx.V, by.V), "marshalled messages equal?") {
+				return 1
+			}
+			p++
+			continue
 		}
 		// at least one side is a symbolic time byte
 		var tx, ty *smt.Term
@@ -587,3 +601,110 @@ func (fr *frame) errMsg(it iface) string {
 }
 
 var _ = fmt.Sprint
+
+// deepEqTerm: structural equality of two values of static type T as a Bool term.
+func (fr *frame) deepEqTerm(T types.Type, x, y value) *smt.Term {
+	c := fr.ctx()
+	switch atomicNamed(T) {
+	case atomInt, atomDec:
+		tx, ty := atomTerm(x), atomTerm(y)
+		if tx == nil || ty == nil {
+			return c.Bool(tx == nil && ty == nil)
+		}
+		return c.Eq(tx, ty)
+	case atomTime:
+		return c.Eq(fr.timeT(x), fr.timeT(y))
+	}
+	switch U := T.Underlying().(type) {
+	case *types.Struct:
+		a, b := x.(structure), y.(structure)
+		var ts []*smt.Term
+		for k := range a {
+			ts = append(ts, fr.deepEqTerm(U.Field(k).Type(), a[k], b[k]))
+		}
+		return c.And(ts...)
+	case *types.Array:
+		a, b := x.(array), y.(array)
+		var ts []*smt.Term
+		for k := range a {
+			ts = append(ts, fr.deepEqTerm(U.Elem(), a[k], b[k]))
+		}
+		return c.And(ts...)
+	case *types.Slice:
+		a, b := x.([]value), y.([]value)
+		if len(a) != len(b) {
+			return c.False()
+		}
+		var ts []*smt.Term
+		for k := range a {
+			ts = append(ts, fr.deepEqTerm(U.Elem(), a[k], b[k]))
+		}
+		return c.And(ts...)
+	case *types.Pointer:
+		a, b := x.(*value), y.(*value)
+		if a == nil || b == nil {
+			return c.Bool(a == nil && b == nil)
+		}
+		return fr.deepEqTerm(U.Elem(), *a, *b)
+	case *types.Basic:
+		switch xv := x.(type) {
+		case SymBool:
+			return c.Eq(xv.T, fr.i.termOfBool(y))
+		case SymInt:
+			return c.Eq(xv.T, fr.i.termOfInt(y))
+		case bool:
+			if sb, ok := y.(SymBool); ok {
+				return c.Eq(c.Bool(xv), sb.T)
+			}
+			return c.Bool(xv == y.(bool))
+		case string:
+			return c.Bool(xv == y.(string))
+		}
+		if si, ok := y.(SymInt); ok {
+			return c.Eq(fr.i.termOfInt(x), si.T)
+		}
+		return c.Bool(x == y)
+	}
+	unsupported("deep equality of %s", T)
+	return nil
+}
+
+func init() {
+	// A-json: encoding/json round-trips plain response structs (deep copy through a blob)
+	reg("encoding/json.Marshal", func(fr *frame, a []value) value {
+		it := a[0].(iface)
+		if it.t == nil {
+			return tuple{byteSliceOfString("null"), nilErr()}
+		}
+		T, v := it.t, it.v
+		if pt, ok := T.Underlying().(*types.Pointer); ok {
+			p := v.(*value)
+			if p == nil {
+				return tuple{byteSliceOfString("null"), nilErr()}
+			}
+			T, v = pt.Elem(), *p
+		}
+		return tuple{[]value{Blob{T: T, V: fr.deepCopy(T, v, false)}}, nilErr()}
+	})
+	reg("encoding/json.Unmarshal", func(fr *frame, a []value) value {
+		b := a[0].([]value)
+		it := a[1].(iface)
+		pt, ok := it.t.Underlying().(*types.Pointer)
+		if !ok || len(b) != 1 {
+			unsupported("json.Unmarshal of raw bytes")
+		}
+		blob, ok := b[0].(Blob)
+		if !ok || !types.Identical(blob.T, pt.Elem()) {
+			unsupported("json.Unmarshal into a different type than was marshalled")
+		}
+		store(pt.Elem(), it.v.(*value), fr.deepCopy(pt.Elem(), blob.V, false))
+		return nilErr()
+	})
+	reg("net/url.QueryUnescape", func(fr *frame, a []value) value {
+		s := a[0].(string)
+		if strings.ContainsAny(s, "%+") {
+			unsupported("url.QueryUnescape of an escaped string")
+		}
+		return tuple{s, nilErr()}
+	})
+}
